@@ -10,14 +10,16 @@ import ecc_file_x as fx
 import ecc_scen as es
 import ecc_util as eu
 
-LEAN_MODULES = ["Pff.Props.C04", "Pff.Props.RunB", "Pff.Props.C02"]
+LEAN_MODULES = ["Pff.Props.C04", "Pff.Props.RunB", "Pff.Props.C02", "Pff.Props.RunD"]
 PROP_MODULE = "Pff.Props.C04"
 THEOREMS = ["Pff.Ecc.C04_truncated_ecc_needs_hash", "Pff.Ecc.C04_block", "Pff.Ecc.C04_intact_untouched", "Pff.Ecc.C04_failed_copied", "Pff.Ecc.C04_length_header",
             "Pff.Ecc.C04_length_whole", "Pff.Ecc.C04_blockwise_header", "Pff.Ecc.C04_blockwise_whole", "Pff.Ecc.C04_failed_not_complete",
             "Pff.Ecc.C04_exit", "Pff.Ecc.C04_results_wf",
             "Pff.Run.C13_run_output_length",
             "Pff.RSSpec.C02_decode_within_radius",
-            "Pff.RSSpec.C02_decode_full_block_within_radius"]
+            "Pff.RSSpec.C02_decode_full_block_within_radius",
+            "Pff.Run.C04_run_blockwise",
+            "Pff.Run.C04_run_conservative"]
 MODELLED = [("pyFileFixity/header_ecc.py", "main"), ("pyFileFixity/header_ecc.py", "entry_assemble"),
             ("pyFileFixity/structural_adaptive_ecc.py", "main"), ("pyFileFixity/structural_adaptive_ecc.py", "stream_entry_assemble")]
 TRUSTED_BASE = [
